@@ -535,3 +535,47 @@ package syntax
 //@   loop 0:
 //@     invariant CursorOK(p) && p.pattern == old(p.pattern) && backpos == old(p.currentPos) && backpos < p.currentPos && backpos <= lastEndPos && (capnum >= 0 ==> lastEndPos > backpos) && 0 <= newcapnum && newcapnum <= 2147483647 && 0 <= lastEndPos && lastEndPos <= len(p.pattern) && 0 <= backpos && backpos <= len(p.pattern)
 //@     decreases len(p.pattern) - p.currentPos
+
+// ---------------------------------------------------------------------------------------------
+// C02: which capture slots the bool-only program must keep (code.go). OpStart(codes, pos): pos is an instruction
+// boundary of the opcode stream - the least set containing 0 and closed under "skip one instruction"; the three
+// axioms are its (trusted) definition. Every Ref / Testref operand and both operands of a balancing Capturemark
+// must be marked in use.
+// ---------------------------------------------------------------------------------------------
+//@ ghost func OpStart(codes []int, pos int) bool
+//@ spec func OpOf(codes []int, pos int) int = codes[pos] & 63
+//@ spec func OpSizeOf(op int) int = ite(op == Nothing || op == Bol || op == Eol || op == Boundary || op == Nonboundary || op == ECMABoundary || op == NonECMABoundary || op == Beginning || op == Start || op == EndZ ||
+//@       op == End || op == Nullmark || op == Setmark || op == Getmark || op == Setjump || op == Backjump || op == Forejump || op == Stop || op == UpdateBumpalong, 1,
+//@     ite(op == One || op == Notone || op == Multi || op == Ref || op == Testref || op == Goto || op == Nullcount || op == Setcount || op == Lazybranch || op == Branchmark || op == Lazybranchmark || op == Prune || op == Set, 2,
+//@     ite(op == Capturemark || op == Branchcount || op == Lazybranchcount || op == Onerep || op == Notonerep || op == Oneloop || op == Notoneloop || op == Onelazy || op == Notonelazy ||
+//@       op == Setlazy || op == Setrep || op == Setloop || op == Oneloopatomic || op == Notoneloopatomic || op == Setloopatomic, 3, 0)))
+//@ axiom opstart-0:    forall codes []int {OpStart(codes, 0)} :: OpStart(codes, 0)
+//@ axiom opstart-step: forall codes []int, pos int {OpStart(codes, pos)} :: OpStart(codes, pos) && 0 <= pos && pos < len(codes) && codes[pos] >= 0 ==> OpStart(codes, pos + OpSizeOf(OpOf(codes, pos)))
+//@ axiom opstart-gap:  forall codes []int, pos int, q int {OpStart(codes, pos), OpStart(codes, q)} :: OpStart(codes, pos) && OpStart(codes, q) && 0 <= pos && pos < q && pos < len(codes) && codes[pos] >= 0 ==> pos + OpSizeOf(OpOf(codes, pos)) <= q
+// every instruction is a known opcode and lies inside the stream
+//@ spec func StreamWF(codes []int) bool = forall q int {OpStart(codes, q)} :: OpStart(codes, q) && 0 <= q && q < len(codes) ==> codes[q] >= 0 && OpSizeOf(OpOf(codes, q)) > 0 && q + OpSizeOf(OpOf(codes, q)) <= len(codes)
+// the slots instruction q observes are marked
+//@ spec func SlotsMarked(codes []int, q int, inUse []bool) bool =
+//@     ((OpOf(codes, q) == Ref || OpOf(codes, q) == Testref) && 0 <= codes[q+1] && codes[q+1] < len(inUse) ==> inUse[codes[q+1]]) &&
+//@     (OpOf(codes, q) == Capturemark && codes[q+2] != -1 ==> (0 <= codes[q+1] && codes[q+1] < len(inUse) ==> inUse[codes[q+1]]) && (0 <= codes[q+2] && codes[q+2] < len(inUse) ==> inUse[codes[q+2]]))
+
+//@ func opcodeSize(op InstOp) (n int)
+//@   props C02 C10
+//@   requires OpSizeOf(op & 63) > 0
+//@   ensures n == OpSizeOf(op & 63)
+
+//@ func captureSlotsInUse(codes []int, capsize int) (inUse []bool)
+//@   props C02 C10
+//@   requires capsize >= 0 && StreamWF(codes)
+//@   ensures[shape] len(inUse) == capsize && fresh(inUse) && (capsize > 0 ==> inUse[0])
+//@   ensures[marked] forall q int {OpStart(codes, q)} :: OpStart(codes, q) && 0 <= q && q < len(codes) ==> SlotsMarked(codes, q, inUse)
+//@   loop 0:
+//@     invariant 0 <= pos && pos <= len(codes) && OpStart(codes, pos) && len(inUse) == capsize && fresh(inUse) && off(inUse) == 0 && (capsize > 0 ==> inUse[0])
+//@     invariant[marked] forall q int {OpStart(codes, q)} :: OpStart(codes, q) && 0 <= q && q < pos ==> SlotsMarked(codes, q, inUse)
+//@     decreases len(codes) - pos
+//@   loop 1:
+//@     invariant 0 <= pos && pos < len(codes) && OpStart(codes, pos) && len(inUse) == capsize && fresh(inUse) && off(inUse) == 0 && (capsize > 0 ==> inUse[0]) && OpOf(codes, pos) == Capturemark && codes[pos+2] != -1 && op == Capturemark
+//@     invariant -1 <= rangeindex && rangeindex < 2
+//@     invariant[marked] forall q int {OpStart(codes, q)} :: OpStart(codes, q) && 0 <= q && q < pos ==> SlotsMarked(codes, q, inUse)
+//@     invariant[here] forall k int :: 0 <= k && k <= rangeindex ==> (0 <= codes[pos+1+k] && codes[pos+1+k] < len(inUse) ==> inUse[codes[pos+1+k]])
+//@     decreases 2 - rangeindex
